@@ -39,8 +39,13 @@ CLAIMED = {
                      'array), C04_path_of_accessor_leaf, C04_resolveEntryKind_not_auto. Accessor application to trees and codify/eval: oracle only.' + PARTIAL,
                 technique='Lean 4 proof (fuel induction over two index walkers) + correspondence', ref='6 C04'),
     'C05': dict(text='Proved about the model of ops.py: C05_calls_in_order, C05_calls_prefix, C05_prefix_failure_before_calls, '
-                     'C05_inplace_returns_tree. Argument alignment (sub-tree at the leaf path) rests on flatten_up_to (C07) and is checked by the oracle.' + PARTIAL,
-                technique='Lean 4 proof about the ops.py model + correspondence', ref='6 C05'),
+                     'C05_inplace_returns_tree; and through the refinement theorems of C07 (flatten_up_to = structural match against the first '
+                     "tree's shape): C05_rest_accepted_iff_suffix (an extra tree is accepted iff the first tree's shape is a prefix of its shape), "
+                     'C05_non_suffix_rejected (one non-suffix extra tree makes tree_map fail before any call), C05_rest_one_per_leaf, '
+                     'C05_rest_aligned (the i-th sub-tree an extra tree contributes is the one reached from it by following the i-th leaf path of '
+                     'the first tree: positions, dict keys whatever the dict kind or order, registration entries; Lemmas/UpToAlign.lean). '
+                     'The with_path / with_accessor variants and walk / traverse: correspondence + reference alignment in the oracle.' + PARTIAL,
+                technique='Lean 4 proof about the ops.py model, using the flatten_up_to refinement + correspondence', ref='6 C05'),
     'C06': dict(text='Proved: C06_eq_iff (for all well-formed shapes: == on the post-order encodings is True exactly when the shapes are equal - same '
                      'kinds, arities, classes / metadata / keys in order / maxlen / factory, identical registrations - none_is_leaf agrees and the '
                      'namespaces are compatible; custom entries and remembered key insertion order do not take part), C06_eq_of_flatten (treespecs '
@@ -77,7 +82,7 @@ CLAIMED = {
                      "node's children located by cursor table for dict kinds, result written in reverse post-order with the counts of each node patched "
                      'after every child) returns ValueError exactly when the tree-level least common suffix STree.lub is undefined and otherwise the '
                      'encoding of lub a b; C09_broadcast_cases, C09_lub_leaf, C09_lub_extends_left (the first operand is a prefix of the result, which '
-                     'keeps its node types, key order and custom entries), STree.prefixB_refl; C09_rejects, C09_leaf_left_go, C09_leaf_right_go, '
+                     'keeps its node types, key order and custom entries), C09_lub_idem / C09_broadcast_idem (idempotence); C09_rejects, C09_leaf_left_go, C09_leaf_right_go, '
                      'C09_kind_conflict. That the second operand is a prefix of the result, leastness, symmetry up to dict kind / order, idempotence, '
                      'the leaf replication of tree_broadcast_prefix and the n-ary tree_broadcast_map: correspondence against the model plus a reference '
                      'least-common-suffix in the oracle.' + PARTIAL,
